@@ -667,6 +667,9 @@ class Interp:
             self.call_depth -= 1
 
     def instantiate(self, cls, args, kwargs):
+        en = self.env.exc_class_name(cls)
+        if en is not None:
+            return ExcVal(en, tuple(args))
         new, _ = cls.lookup('__new__')
         if new is not None:
             obj = self.call(new, [cls] + list(args), kwargs)
